@@ -464,9 +464,12 @@ func (p *Proxy) talk(a string, n *com.Packet) (*conn, bool, error) {
 	var (
 		i     = n.Device.Hash()
 		c, ok = p.clients[i]
+		// The table is keyed by the 32-bit hash: an entry with a different ID
+		// belongs to another device and must not be used (or replaced) here.
+		x = ok && c.ID != n.Device
 	)
-	if p.lock.RUnlock(); !ok {
-		if n.ID != SvHello {
+	if p.lock.RUnlock(); !ok || x {
+		if n.ID != SvHello || x {
 			if cout.Enabled {
 				p.log.Warning("[%s:%s] %s: Received a non-hello Packet from a unregistered client!", p.prefix(), n.Device, a)
 			}
@@ -553,9 +556,12 @@ func (p *Proxy) talkSub(a string, n *com.Packet, o bool) (connHost, uint32, *com
 	var (
 		i     = n.Device.Hash()
 		c, ok = p.clients[i]
+		// The table is keyed by the 32-bit hash: an entry with a different ID
+		// belongs to another device and must not be used (or replaced) here.
+		x = ok && c.ID != n.Device
 	)
-	if p.lock.RUnlock(); !ok {
-		if n.ID != SvHello {
+	if p.lock.RUnlock(); !ok || x {
+		if n.ID != SvHello || x {
 			if cout.Enabled {
 				p.log.Warning("[%s:%s/M] %s: Received a non-hello Packet from a unregistered client!", p.prefix(), n.Device, a)
 			}
